@@ -335,14 +335,13 @@ def _any_op(rng, ctx, depth=0, in_body=False):
     i = rng.randrange(ninst) if ninst else 0
     c = rng.randrange(ncls)
     if r < 0.12 or ninst == 0:
+        if in_body and rng.random() < 0.8:
+            return S(i, n, v)
         kw = [[m, rng.randrange(NPOOL)] for m in NAMES if rng.random() < 0.2]
         if rng.random() < 0.04:
             kw.append(['q', 1])
-        if not in_body or rng.random() < 0.3:
-            ctx['ninst'] += 1 if not in_body else 0
-            if not in_body:
-                return {'op': 'newInst', 'c': c, 'kw': kw}
-        return S(i, n, v)
+        ctx['ninst'] += 1
+        return {'op': 'newInst', 'c': c, 'kw': kw}
     if r < 0.36:
         return S(i, n, v)
     if r < 0.42:
@@ -403,11 +402,12 @@ def cases(rng, tier, worker, nworkers):
         yield _random_case(rng)
 
 
-def _walk(ops, depth=0, owner=None):
+def _walk(ops, depth=0, owner=None, owners=()):
+    """every statement with its nesting depth, the instance of the innermost enclosing block and of all enclosing blocks"""
     for op in ops:
-        yield op, depth, owner
+        yield op, depth, owner, owners
         if op['op'] == 'block':
-            yield from _walk(op['body'], depth + 1, op['i'])
+            yield from _walk(op['body'], depth + 1, op['i'], owners + (op['i'],))
 
 
 def _touches(op):
@@ -417,7 +417,7 @@ def _touches(op):
 
 def tags(case, impl):
     t = ['shape:' + case['shape'], f'len={min(len(case["steps"]), 10)}' + ('+' if len(case['steps']) >= 10 else '')]
-    for op, depth, owner in _walk(case['steps']):
+    for op, depth, owner, _ in _walk(case['steps']):
         if depth:
             if op['op'] == 'clsSet':
                 t.append('body:class-set')
@@ -511,18 +511,26 @@ def classify(case, impl, fail):
     before = impl['steps'][k - 1] if k else impl['init']
     col = case['names'].index(name) if name in case['names'] else None
     if check == 'restore-governing' and op['op'] == 'block':
-        inner = list(_walk(op['body'], 1, op['i']))
+        inner = list(_walk(op['body'], 1, op['i'], (op['i'],)))
         # a class-level assignment inside the block copied the temporarily editable Parameter onto a subclass
-        if any(o['op'] == 'clsSet' and o['n'] == name for o, _, _ in inner):
+        if any(o['op'] == 'clsSet' and o['n'] == name for o, _, _, _ in inner):
             return 'edit-constant-copy-on-write-inside-block-stays-editable'
-        # the block touched another instance, whose per-instance copy was taken from the temporarily editable class Parameter
-        if what == 'instance' and any(_touches(o) == idx and owner != idx for o, _, owner in inner if o['op'] != 'block'):
+        # a block of some other instance was open while this instance's per-instance copy was taken from the
+        # temporarily editable class Parameter
+        if what == 'instance' and any(_touches(o) == idx and any(w != idx for w in owners)
+                                      for o, _, _, owners in inner if o['op'] != 'block'):
             return 'edit-constant-copy-of-other-instance-stays-editable'
         return None
     if check == 'constant' and op['op'] == 'clsSet' and op['n'] == name and col is not None and idx < len(before['inst']):
-        stored = before['inst'][idx]['rows'][col][1]
-        if stored is None and name == 'name':
+        # a class-level assignment reached an instance that holds no own reference to its constant value
+        if before['inst'][idx]['rows'][col][1] is not None:
+            return None
+        if name == 'name':
             return 'name-not-referenced-on-instance-when-class-name-overridden'
-        if stored is None:
-            return 'constant-value-not-referenced-on-instance'
+        created_in_block = [o for o, d, _, _ in _walk(case['steps'][:k]) if d and o['op'] == 'newInst']
+        late_flag = [o for o, _, _, _ in _walk(case['steps'][:k]) if o['op'] in ('flag', 'clsFlag') and o['n'] == name and o['b']]
+        if late_flag:
+            return 'constant-flag-set-later-value-not-referenced-on-instance'
+        if created_in_block:
+            return 'instance-created-inside-edit-constant-misses-constant-references'
     return None
